@@ -305,12 +305,9 @@ func buildRootSet(fetch, signers []kref, bad []badSig) []dns.RR {
 		case 'f':
 			incep, exp = now.Add(time.Hour), now.Add(48*time.Hour)
 		case 'p':
-			// signature over a strict part of the set plus nothing else:
-			// valid for that part, not for the RRset served
-			data = append([]dns.RR(nil), set[:len(set)-1]...)
-			if len(data) == 0 {
-				data = []dns.RR{getKey(b.key.id + 5000).dnskey(256)}
-			}
+			// made over other data: the served records plus one that is not served (a strict
+			// subset would coincide with the RRset when the answer repeats a record)
+			data = append(append([]dns.RR(nil), set...), getKey(b.key.id+5000).dnskey(256))
 		}
 		sig := newSig(b.key, incep, exp)
 		if err := sig.Sign(signWith.signer(), data); err != nil {
